@@ -20,6 +20,35 @@ fn parse_u64(s: &str) -> u64 {
     s.parse().unwrap()
 }
 
+/// Watchdog for polls that never return without ever touching a mock (a router spinning on its
+/// own state): after 4 s inside one poll the case's log so far is printed with `pe spin` and
+/// the process exits normally, so that the judge sees the spin as the last case of the trace.
+static WATCH: Mutex<Option<(std::time::Instant, W)>> = Mutex::new(None);
+static WATCHDOG: std::sync::Once = std::sync::Once::new();
+
+fn start_watchdog() {
+    WATCHDOG.call_once(|| {
+        std::thread::spawn(|| loop {
+            std::thread::sleep(std::time::Duration::from_millis(200));
+            let g = WATCH.lock().unwrap_or_else(|p| p.into_inner());
+            if let Some((t0, w)) = g.as_ref() {
+                if t0.elapsed() > std::time::Duration::from_secs(4) {
+                    use std::io::Write;
+                    let wl = w.lock().unwrap_or_else(|p| p.into_inner());
+                    let mut o = std::io::stdout().lock();
+                    for l in wl.log.iter() {
+                        let _ = writeln!(o, "{}", l);
+                    }
+                    let _ = writeln!(o, "pe spin");
+                    let _ = writeln!(o, "end");
+                    let _ = o.flush();
+                    std::process::exit(0);
+                }
+            }
+        });
+    });
+}
+
 pub struct Exec {
     pub w: W,
     pub counter: Arc<CountWaker>,
@@ -56,10 +85,13 @@ impl Exec {
             w.log.push("pb".into());
         }
         let waker = self.waker.clone();
+        start_watchdog();
+        *WATCH.lock().unwrap_or_else(|p| p.into_inner()) = Some((std::time::Instant::now(), self.w.clone()));
         let res = catch(|| {
             let mut cx = Context::from_waker(&waker);
             fut.as_mut().poll(&mut cx)
         });
+        *WATCH.lock().unwrap_or_else(|p| p.into_inner()) = None;
         // a panic while holding the world lock poisons it: recover the guard
         let mut w = match self.w.lock() {
             Ok(g) => g,
@@ -92,6 +124,7 @@ struct Env {
 fn new_stream(w: &W, id: u64) -> Socket<u64, MockErr> {
     let st: MockStream<u64> = MockStream {
         id,
+        ended: false,
         w: w.clone(),
         make: Box::new(|world: &mut World| {
             world.next_item += 1;
@@ -286,12 +319,16 @@ pub fn main(args: &[String]) {
         let n: u64 = args[2].parse().unwrap();
         for i in 0..n {
             run_case(seed, i, &mut out);
+            print!("{}", out);
+            out.clear();
         }
     } else {
         let text = std::fs::read_to_string(&args[1]).unwrap();
         for b in case_blocks(&text) {
             if b[0].starts_with("case ps") {
                 replay_case(&b, &mut out);
+                print!("{}", out);
+                out.clear();
             }
         }
     }
